@@ -410,3 +410,15 @@ def derived_child(t_key, t_info, b_key, b_info, kt):
     if isa(b_info, 'info.KeyInfo'):
         return is_alt(d, 'kmap') and renorm_defaults(raw_defaults_of(b_info), kt, 0, {}) == (0, alt(d, 'kmap'))
     return is_alt(d, 'kmap') and renorm_multi_defaults(raw_defaults_of(b_info), kt, 0, {}) == (0, alt(d, 'kmap'))
+
+
+
+def key_default_shape(ci):
+    """Shape of the defaults a key info object keeps, by kind: a mapping for a wildcard key or
+    multikey, a list for a multikey, at most one value for a key."""
+    k = cast(ci, 'info.BaseKeyInfo')
+    if ci.name == '+':
+        return is_alt(k._default, 'kmap')
+    if isa(ci, 'info.MultiKeyInfo'):
+        return is_alt(k._default, 'lst')
+    return is_alt(k._default, 'none') or is_alt(k._default, 'vi')
